@@ -143,6 +143,9 @@ static int handle_core(char **f, int nf) {
 #include "u_snappy.h"
 #include "u_iterstack.h"
 #include "u_table.h"
+#include "u_wfile.h"
+#include "u_policy.h"
+#include "u_skiplist.h"
 
 static void handle(char *line) {
   static char *f[MAXF]; int nf = split_fields(line, f, MAXF);
@@ -153,6 +156,9 @@ static void handle(char *line) {
   if (handle_snappy(f, nf)) return;
   if (handle_iterstack(f, nf)) return;
   if (handle_table(f, nf)) return;
+  if (handle_wfile(f, nf)) return;
+  if (handle_policy(f, nf)) return;
+  if (handle_skiplist(f, nf)) return;
   printf("bad-op");
 }
 
